@@ -687,6 +687,10 @@ class Merge(MultiCrossBlock):
             alignment = normalize_alignment(who, alignment)
         for b in blocks:
             if b.alignment != alignment:
+                if b.alignment == AlignmentMode.EQUAL_PREAMBLE and len(b.crossings) <= 1:
+                    # With a single crossing, EQUAL_PREAMBLE involves no choice
+                    # (as in `Nest`), so any alignment can be imposed.
+                    continue
                 raise ValueError(who, "Blocks have different alignments.")
         mode = normalize_mode(who, mode)
 
